@@ -185,12 +185,13 @@ PROPS = {
             "thorough": [job("micro", "mux", "verif", "c12", 16),
                          job("miri", "mux", "miri", "c12", 16, extra=["--miri", "1"], timeout=3000, miriflags="-Zmiri-seed={shard}")],
         },
-        "required_targets": {"any": ["ack_inside_check_then_register_window", "close_inside_check_then_register_window"]},
+        "required_targets": {"any": ["ack_inside_check_then_register_window", "close_inside_check_then_register_window", "stress_takes_while_granting"]},
         "assumptions": COMMON_ASSUMPTIONS + [
             "MICRO engine: real OS threads; the observer hook blocks each thread at each hook event until a turn-taking scheduler releases it; an execution is a total order of hook events (granularity = hook points, not individual atomic operations)",
             "'two writer polls' = two polls of the same writer (one waker slot, AsyncWrite needs &mut self); two independent waiters on one stream are outside the API contract",
             "C11 memory-model behaviours beyond what x86 and Miri's store-buffer emulation produce are not covered",
             "standalone_stream builds the MuxStream/EstablishedStreamData pair exactly as the connection task does; acknowledge/disallow_write are the task's own methods",
+            "interleavings between individual atomic operations are reached by the free-running stress (one writer thread against one granting thread, as the one connection task is the only granter) and by Miri's random preemption, not by enumeration; the stress is judged by exact conservation only",
         ],
     },
     "C13": {
@@ -199,11 +200,13 @@ PROPS = {
             "quick": [job("sim", "mux", "verif", "c13", 8)],
             "thorough": [job("sim", "mux", "verif", "c13", 16)],
         },
-        "required_targets": {"any": ["bytes_bridged_runs", "errors_injected", "bridges_completed_ok"]},
+        "required_targets": {"any": ["bytes_bridged_runs", "errors_injected", "bridges_completed_ok", "local_eof_served_runs", "local_eof_with_credit_exhausted"]},
         "assumptions": COMMON_ASSUMPTIONS + SIM_ASSUMPTIONS + [
             "the local side is a scripted AsyncBufRead + AsyncWrite; an injected read error is one-shot and followed by EOF, as sockets behave",
             "'promptly' = the bridge future has resolved by the second quiescent point after the error was returned to it",
             "a bridge whose local reader is idle forever, or whose far application never reads, legitimately stays pending; only the half-close and data oracles apply then",
+            "'one unit of credit per frame sent' is checked both ways at the end of runs without an injected error: units taken by the bridged stream == Push frames of its flow on the wire",
+            "a half-close needs no credit: after the local side served EOF (no error, no Reset on the flow) the Finish frame must be on the wire within 3 ms of virtual time (link jitter is below 1 ms)",
         ],
     },
     "C14": {
@@ -215,7 +218,7 @@ PROPS = {
         "required_targets": {"any": ["expected_101", "expected_refusal", "indistinguishability_comparisons", "tunnels_probed"]},
         "assumptions": COMMON_ASSUMPTIONS + E2E_ASSUMPTIONS + [
             "the decision predicate is written from the statement: header values compared case-insensitively as whole values after HTTP's own optional-whitespace trimming; PSK compared byte for byte",
-            "cells the statement leaves open (duplicate header with one valid value, empty Sec-WebSocket-Key) are executed and recorded without verdict",
+            "cells the statement leaves open (duplicate header with one valid value, empty Sec-WebSocket-Key, HTTP/1.0 request line) get no verdict on 101-or-not; when they are refused they are 'every other request' and must be indistinguishable from the unknown-path twin",
             "the stub backend's reply is a function of method and headers only, and it records what it was sent",
         ],
     },
@@ -226,10 +229,11 @@ PROPS = {
             "thorough": [job("e2e", "e2e", "verif", "c17", 3)],
         },
         "exhaustive_claim": True,
-        "required_targets": {"any": ["matrix_cells_executed", "reload_cycles", "certificate_request_probes"]},
+        "required_targets": {"any": ["matrix_cells_executed", "reload_cycles", "certificate_request_probes", "signal_reload_cycles", "policy_columns_after_signal_reload"]},
         "assumptions": COMMON_ASSUMPTIONS + E2E_ASSUMPTIONS + [
             "certificates are generated with rcgen at run time; 'reaches the server' = GET /health is answered 200 over the TLS stream (with TLS 1.3 a rejected client certificate only surfaces at the first read)",
             "whether a CertificateRequest was sent is observed with a recording rustls ResolvesClientCert",
+            "the operator's reload path is exercised in-process: server_main with certificate files, files replaced, SIGUSR1 sent to the own process with kill(1); 'effective' = a handshake sees the new identity within 5 s (bounded wait, expiry is a violation only of 'reload-not-effective')",
         ],
     },
     "C19": {
@@ -241,7 +245,7 @@ PROPS = {
         "required_targets": {"any": ["backoff_tuples_x_reset_patterns", "runs_with_failed_attempts", "orderly_close_runs", "conversations_across_outage"]},
         "assumptions": COMMON_ASSUMPTIONS + E2E_ASSUMPTIONS + [
             "the gate timestamps accepted attempts; a delay is measured from the instant the previous attempt failed (RST/close at accept, handshake timeout after 1 s, cut instant)",
-            "lower bounds on delays are hard (a sleep cannot be short, 5 ms slack); upper bounds use the minimum over repeats with tolerance max(150 ms, 50%) and need a quiescence witness, else inconclusive",
+            "lower bounds on delays are hard (a sleep cannot be short, 5 ms slack); upper bounds use the minimum over repeats with tolerance max(150 ms, 50%); a delay is judged too late only if it was late in every one of 5 repeats while a 5 ms timer task on the same runtime never overshot by more than a quarter of the tolerance (load witness), otherwise inconclusive",
             "true ECONNREFUSED attempts cannot be timestamped by the gate and are not part of the timing oracle",
         ],
     },
@@ -251,11 +255,11 @@ PROPS = {
             "quick": [job("e2e", "e2e", "verif", "c01", 8, timeout=600)],
             "thorough": [job("e2e", "e2e", "verif", "c01", 16, timeout=3000)],
         },
-        "required_targets": {"any": ["conversations_completed", "udp_replies_checked", "half_close_then_opposite_direction", "close_refuse_abort_paths"]},
+        "required_targets": {"any": ["conversations_completed", "udp_replies_checked", "half_close_then_opposite_direction", "close_refuse_abort_paths", "socks5_associations_with_two_targets"]},
         "assumptions": COMMON_ASSUMPTIONS + E2E_ASSUMPTIONS + [
             "absolute oracle with position-addressed payloads instead of a second run over a direct connection: each side must receive exactly the other side's stream, a direction's end is compared as ended / not ended",
             "for refusing / aborting targets only 'the local connection is closed and nothing the target did send is lost' is demanded (a tunnel turns a refused connect into an accepted-then-closed local connection)",
-            "UDP loss is not a violation by itself; only cross-delivery, wrong source address, duplication, modification, a malformed SOCKS5 header, or nothing at all arriving",
+            "UDP loss is not a violation by itself; only cross-delivery, wrong source address, duplication, modification, a reply produced by another target than the one addressed, a malformed SOCKS5 header, or nothing at all arriving",
         ],
     },
 }
